@@ -237,6 +237,8 @@ func c08Projects(ctx *Ctx, r *Rng) {
 	defer func() {
 		// the catalog-construction model on the forests of multi-file projects (with single faults in some)
 		buildCorrespondenceProjects(ctx, cutProjects, "documents cut into included files (plain and with a line mutant in one file)")
+		// the composed model on the FILES of the same projects and of the include graphs (cycles, missing files, directories, JSIGHT)
+		projectFSCorrespondence(ctx, append(append([]Project{}, cutProjects...), includeGraphs(r.Fork())...), "documents cut into included files (plain and with a line mutant in one file) and include graphs")
 	}()
 	for i := 0; i < n && len(ctx.Violations) < 10; i++ {
 		m := GenModel(r)
